@@ -6,7 +6,10 @@ Tie: (a) translator + re-proof; (b) differential run of the model's compute_key 
 defined identically in Gallina and here) against the real Transport._compute_key; exhaustive run of the
 model's `requested` against what the real _activate_inbound/_activate_outbound ask for.
 Search oracle: independent RFC 4253 derivation over hashlib vs _compute_key; installed keys vs the
-oracle; client-out == server-in and in != out on the real code; real loopback handshakes.
+oracle; client-out == server-in and in != out on the real code; real loopback handshakes (every kex incl.
+group exchange with a stub modulus pack, every AEAD cipher) with traffic, a re-key and more traffic, whose
+captured wire bytes are decoded per key epoch with the RFC values by an independent decoder (AES-GCM / CTR /
+CBC + HMAC straight from `cryptography` / `hmac`), i.e. what the Packetizer actually has in effect.
 """
 import hashlib
 import struct
@@ -24,12 +27,15 @@ LEVEL_TEXT = ("Machine-checked proof (Coq, closed under the global context, the 
               "on two inputs differing in the letter byte, and that the requested sizes are iv-size-or-block-size / "
               "key-size / MAC digest size (1..512 over the generated tables), and that for every kex of the generated "
               "_kex_info table the selected hash (the class's hash_algo, else the sha1 fallback extracted from "
-              "_compute_key) has digest length 1..64 so the RFC theorem applies.  The model is tied to transport.py by the "
+              "_compute_key) has digest length 1..64 so the RFC theorem applies, and that length is the one the kex METHOD "
+              "specifies (hand-written RFC table by method name, C04_kex_hash_spec).  The model is tied to transport.py by the "
               "translator (letters, sizes, tables) and by a vm_compute differential run against the real code.")
 LEVEL_NOTE = ("Trusted: Coq kernel + vm_compute; hand-written loop model of _compute_key validated by the "
               "correspondence run (toy hash); gen/c04.py; the hash is abstract (fixed output length; collision "
               "freedom appears only as an explicit premise / conclusion); which hash is selected is generated (digest "
-              "length per kex class, fallback) and checked on the real kex classes by the oracle; logging "
+              "length per kex class, fallback), proved equal to a hand-written per-method RFC table, and checked on the "
+              "real kex classes and in real handshakes against the hash named by the kex method; the Packetizer is not "
+              "modelled here (C01-C03) -- what it has in effect per key epoch is checked only by the wire decoder; logging "
               "and the engine construction in _get_engine are outside the model (checked by the oracle only); that "
               "local_cipher of one peer equals remote_cipher of the other is C05's subject.")
 TECHNIQUE = "Coq proof (loop invariant, induction on fuel) + generated tables + vm_compute differential correspondence"
@@ -349,14 +355,70 @@ def check_activation(ctx, server, outbound, cname, mname, hname, K, H, sid, res)
 # ---------------------------------------------------------------------------------------------
 # real handshake
 
-def handshake(kex, cipher, mac):
-    """Loopback handshake between two recording transports; returns per-side observations."""
-    import paramiko
+def spec_kex_hash(kex):
+    """The hash a kex method is DEFINED to use (RFC 4253 8, RFC 4419, RFC 5656 6.2.1, RFC 8268, RFC 8731,
+    RFC 4462) -- from the method name, never from the paramiko class."""
+    if kex.startswith("gss-"):
+        return hashlib.sha1 if "-sha1-" in kex else None
+    if kex.startswith("ecdh-sha2-nistp"):
+        return {"256": hashlib.sha256, "384": hashlib.sha384, "521": hashlib.sha512}.get(kex[len("ecdh-sha2-nistp"):])
+    base = kex.split("@")[0]
+    for suf, h in (("-sha1", hashlib.sha1), ("-sha256", hashlib.sha256), ("-sha384", hashlib.sha384),
+                   ("-sha512", hashlib.sha512)):
+        if base.endswith(suf):
+            return h
+    return None
+
+
+def _stub_modulus_pack():
+    """A modulus pack holding the RFC 3526 group-14 safe prime, so that group-exchange can be negotiated."""
+    if "pack" not in _REC:
+        from paramiko.primes import ModulusPack
+        from paramiko.kex_group14 import KexGroup14
+        mp = ModulusPack()
+        mp.pack = {2048: [(KexGroup14.G, KexGroup14.P)]}
+        _REC["pack"] = mp
+    return _REC["pack"]
+
+
+def tap_socket_class():
+    if "tap" in _REC:
+        return _REC["tap"]
     from _loop import LoopSocket
-    cls = rec_transport_class()
-    a, b = LoopSocket(), LoopSocket()
+
+    class TapSocket(LoopSocket):
+        """LoopSocket that also records every byte sent (the wire of one direction)."""
+
+        def __init__(self):
+            LoopSocket.__init__(self)
+            self.wire = bytearray()
+
+        def send(self, data):
+            n = LoopSocket.send(self, data)
+            self.wire += bytes(data[:n])
+            return n
+
+    _REC["tap"] = TapSocket
+    return TapSocket
+
+
+def handshake(kex, cipher, mac, rekey=True):
+    """Loopback handshake (+ traffic, re-key, traffic) between two recording transports over tapped sockets;
+    returns per-side observations including the raw bytes each side put on the wire."""
+    import threading
+    import time
+    import paramiko
+    base = rec_transport_class()
+    gex = "group-exchange" in kex
+
+    class HsTransport(base):
+        # class attribute of the harness subclass (Transport._modulus_pack itself stays untouched)
+        _modulus_pack = _stub_modulus_pack() if gex else base._modulus_pack
+
+    Tap = tap_socket_class()
+    a, b = Tap(), Tap()
     a.link(b)
-    tc, ts = cls(a), cls(b)
+    tc, ts = HsTransport(a), HsTransport(b)
     try:
         for t in (tc, ts):
             so = t.get_security_options()
@@ -364,25 +426,36 @@ def handshake(kex, cipher, mac):
             so.ciphers = [cipher]
             so.digests = [mac]
         ts.add_server_key(_hostkey())
-        import threading
         ts.start_server(event=threading.Event(), server=paramiko.ServerInterface())
         tc.start_client(timeout=20)
-        # the server activates its inbound side on NEWKEYS receipt; wait for it
-        import time
-        t0 = time.time()
-        while time.time() - t0 < 10:
-            if len(ts.__dict__.get("_c04_trace", [])) >= 6 and len(tc.__dict__.get("_c04_trace", [])) >= 6:
-                break
-            time.sleep(0.005)
-        out = {}
-        for nm, t in (("client", tc), ("server", ts)):
-            tr = list(t.__dict__.get("_c04_trace", []))
-            # K is wiped after NEWKEYS: use what _compute_key saw; the hash is the kex class's declared one
-            out[nm] = {"K": tr[0][3] if tr else None, "H": tr[0][4] if tr else None,
-                       "sid": tr[0][5] if tr else None, "trace": tr,
-                       "same_secret": len({(e[3], e[4], e[5]) for e in tr}) == 1,
+
+        def wait_rounds(n):
+            t0 = time.time()
+            while time.time() - t0 < 15:
+                if len(ts.__dict__.get("_c04_trace", [])) >= 6 * n and len(tc.__dict__.get("_c04_trace", [])) >= 6 * n \
+                        and not tc.in_kex and not ts.in_kex:
+                    return True
+                time.sleep(0.003)
+            return False
+        rounds = 1
+        ok = wait_rounds(1)
+        if ok and rekey:
+            # traffic in the first epoch (both directions), re-key, traffic in the second epoch
+            for _ in range(3):
+                tc.send_ignore(17)
+                ts.send_ignore(5)
+            tc.renegotiate_keys()
+            ok = wait_rounds(2)
+            rounds = 2
+            for _ in range(2):
+                tc.send_ignore(9)
+                ts.send_ignore(33)
+            time.sleep(0.02)
+        out = {"ok": ok, "rounds": rounds}
+        for nm, t, sock in (("client", tc, a), ("server", ts, b)):
+            out[nm] = {"trace": list(t.__dict__.get("_c04_trace", [])),
                        "engines": list(t.__dict__.get("_c04_engines", [])),
-                       "hash": paramiko.Transport._kex_info[kex].hash_algo}
+                       "strict": bool(t.agreed_on_strict_kex), "wire": bytes(sock.wire)}
         return out
     finally:
         tc.close()
@@ -396,50 +469,198 @@ def _hostkey():
     return _REC["hk"]
 
 
-def check_handshake(ctx, kex, cipher, mac):
-    st, obs = with_watchdog(lambda: handshake(kex, cipher, mac), 40)
-    case = {"kex": kex, "cipher": cipher, "mac": mac}
-    if st != "ok":
-        st, obs = with_watchdog(lambda: handshake(kex, cipher, mac), 40)   # retry once
-    if st != "ok":
-        ctx.notes.append("handshake %r did not complete (%s %r); skipped" % (case, st, obs))
+def decode_wire(wire, cipher, mac, epochs, strict):
+    """Independent decoder of one direction's byte stream: banner, plaintext packets up to the first NEWKEYS,
+    then each key epoch decrypted / authenticated with the given (iv, key, mac_key) -- i.e. with what RFC 4253
+    7.2 says is in effect -- using the `cryptography` primitives directly.  Returns (packets decoded per epoch,
+    error or None)."""
+    import hmac as hmaclib
+    import paramiko
+    from cryptography.hazmat.primitives.ciphers import Cipher, algorithms, modes
+    from cryptography.hazmat.primitives.ciphers.aead import AESGCM
+    ci = paramiko.Transport._cipher_info[cipher]
+    mi = paramiko.Transport._mac_info[mac]
+    aead = bool(ci.get("is_aead"))
+    etm = (not aead) and mac.endswith("-etm@openssh.com")
+    bs = ci["block-size"]
+    nl = wire.find(b"\n")
+    if nl < 0:
+        return [], "no banner"
+    pos = nl + 1
+    seq = 0
+    epoch = -1
+    counts = [0] * (len(epochs) + 1)
+    dec = None
+    gcm = None
+    nonce = None
+
+    def start(e):
+        iv, key, _ = epochs[e]
+        if aead:
+            return None, AESGCM(key), iv
+        if cipher.startswith("3des"):
+            try:
+                from cryptography.hazmat.decrepit.ciphers.algorithms import TripleDES
+            except ImportError:
+                TripleDES = algorithms.TripleDES
+            alg = TripleDES(key)
+        else:
+            alg = algorithms.AES(key)
+        mode = modes.CTR(iv) if cipher.endswith("-ctr") else modes.CBC(iv)
+        return Cipher(alg, mode).decryptor(), None, None
+
+    while pos < len(wire):
+        where = "epoch %d packet %d" % (epoch + 1, counts[epoch + 1])
+        if epoch < 0:
+            if pos + 4 > len(wire):
+                break
+            ln = int.from_bytes(wire[pos:pos + 4], "big")
+            body = wire[pos + 4:pos + 4 + ln]
+            if len(body) < ln:
+                break
+            pos += 4 + ln
+            plain = body
+        elif aead:
+            if pos + 4 > len(wire):
+                break
+            ln = int.from_bytes(wire[pos:pos + 4], "big")
+            if ln > 40000 or pos + 4 + ln + 16 > len(wire):
+                return counts, where + ": truncated / implausible length"
+            try:
+                plain = gcm.decrypt(nonce, bytes(wire[pos + 4:pos + 4 + ln + 16]), bytes(wire[pos:pos + 4]))
+            except Exception:   # noqa  (InvalidTag)
+                return counts, where + ": AES-GCM authentication fails with the RFC 4253 key / IV (+ packet counter)"
+            nonce = nonce[:4] + ((int.from_bytes(nonce[4:], "big") + 1) % 2 ** 64).to_bytes(8, "big")
+            pos += 4 + ln + 16
+        else:
+            mkey = epochs[epoch][2]
+            msz = mi["size"]
+            hname = mi["class"]().name
+            if etm:
+                ln = int.from_bytes(wire[pos:pos + 4], "big")
+                if ln > 40000 or pos + 4 + ln + msz > len(wire):
+                    return counts, where + ": truncated / implausible length"
+                ct = bytes(wire[pos + 4:pos + 4 + ln])
+                tag = wire[pos + 4 + ln:pos + 4 + ln + msz]
+                want = hmaclib.new(mkey, seq.to_bytes(4, "big") + bytes(wire[pos:pos + 4]) + ct, hname).digest()[:msz]
+                if bytes(tag) != want:
+                    return counts, where + ": MAC does not verify under the RFC 4253 integrity key"
+                plain = dec.update(ct)
+                pos += 4 + ln + msz
+            else:
+                if pos + bs > len(wire):
+                    break
+                first = dec.update(bytes(wire[pos:pos + bs]))
+                ln = int.from_bytes(first[:4], "big")
+                if ln > 40000 or (ln + 4) % bs != 0 or pos + 4 + ln + msz > len(wire):
+                    return counts, where + ": packet length decrypts to nonsense under the RFC 4253 key / IV"
+                rest = dec.update(bytes(wire[pos + bs:pos + 4 + ln]))
+                pkt = first + rest
+                tag = wire[pos + 4 + ln:pos + 4 + ln + msz]
+                want = hmaclib.new(mkey, seq.to_bytes(4, "big") + pkt, hname).digest()[:msz]
+                if bytes(tag) != want:
+                    return counts, where + ": MAC does not verify under the RFC 4253 integrity key"
+                plain = pkt[4:]
+                pos += 4 + ln + msz
+        counts[epoch + 1] += 1
+        seq = (seq + 1) & 0xFFFFFFFF
+        if len(plain) >= 2 and plain[1] == 21:           # NEWKEYS: the sender switches right after it
+            epoch += 1
+            if epoch >= len(epochs):
+                return counts, "more NEWKEYS than key derivations"
+            dec, gcm, nonce = start(epoch)
+            if strict:
+                seq = 0
+    return counts, None
+
+
+def check_handshake(ctx, kex, cipher, mac, rekey=True):
+    st, obs = with_watchdog(lambda: handshake(kex, cipher, mac, rekey), 60)
+    case = {"kex": kex, "cipher": cipher, "mac": mac, "rekey": rekey}
+    if st != "ok" or not obs.get("ok"):
+        st, obs = with_watchdog(lambda: handshake(kex, cipher, mac, rekey), 60)   # retry once
+    if st != "ok" or not obs.get("ok"):
+        ctx.notes.append("handshake %r did not complete (%s %r); skipped" % (case, st, obs if st != "ok" else "timeout"))
         return False
     c, s = obs["client"], obs["server"]
-    if c["K"] is None or not c["same_secret"] or not s["same_secret"] or \
-            c["K"] != s["K"] or c["H"] != s["H"] or c["sid"] != s["sid"]:
-        ctx.notes.append("handshake %r: K/H differ between the peers (not C04's subject)" % (case,))
-        return False
+    rounds = obs["rounds"]
     sizes = spec_sizes(cipher, mac)
+    hashf = spec_kex_hash(kex)
+    if hashf is None:
+        ctx.notes.append("no specified hash known for kex %s; skipped" % kex)
+        return False
+    if len(c["trace"]) != 6 * rounds or len(s["trace"]) != 6 * rounds:
+        ctx.fail("handshake-letters", "a key exchange does not derive exactly the six keys A-F", case=case,
+                 observed=[[e[:2] for e in c["trace"]], [e[:2] for e in s["trace"]]])
+        return True
+    per_round = {"client": [], "server": []}
+    for r in range(rounds):
+        ctr, strc = c["trace"][6 * r:6 * r + 6], s["trace"][6 * r:6 * r + 6]
+        secrets = {(e[3], e[4], e[5]) for e in ctr + strc}
+        if len(secrets) != 1 or ctr[0][3] is None:
+            ctx.notes.append("handshake %r round %d: K/H/session id differ between the peers or within a round "
+                             "(not C04's subject)" % (case, r))
+            return False
+        K, H, sid = ctr[0][3], ctr[0][4], ctr[0][5]
+        if r > 0 and sid != c["trace"][0][5]:
+            ctx.fail("session-id-changed", "the session id changed on a re-key", case=case)
+        for nm, tr6 in (("client", ctr), ("server", strc)):
+            tr = {(e[0] if isinstance(e[0], str) else e[0].decode()): e for e in tr6}
+            if sorted(tr) != list(LETTERS):
+                ctx.fail("handshake-letters", "a key exchange does not derive exactly the six keys A-F", case=case,
+                         observed=[e[:2] for e in tr6])
+                return True
+            for letter, purpose in zip(LETTERS, ("iv", "iv", "key", "key", "mac", "mac")):
+                want = rfc_kdf(hashf, K, H, letter.encode(), sid, sizes[purpose])
+                if tr[letter][2] != want:
+                    ctx.fail("handshake-key-not-rfc",
+                             "key derived during a real key exchange differs from RFC 4253 7.2 with the hash the kex "
+                             "method specifies",
+                             case=dict(case, side=nm, round=r, letter=letter, hash=hashf().name, K=K, H=H, sid=sid),
+                             expected=want, observed=tr[letter][2])
+            per_round[nm].append(tr)
     for nm, o, server in (("client", c, False), ("server", s, True)):
-        hashf = o["hash"]
-        tr = {(e[0] if isinstance(e[0], str) else e[0].decode()): e for e in o["trace"]}
-        if len(o["trace"]) != 6 or sorted(tr) != list(LETTERS):
-            ctx.fail("handshake-letters", "a handshake does not derive exactly the six keys A-F", case=case,
-                     observed=[e[:2] for e in o["trace"]])
-            continue
-        for letter, purpose in zip(LETTERS, ("iv", "iv", "key", "key", "mac", "mac")):
-            want = rfc_kdf(hashf, o["K"], o["H"], letter.encode(), o["sid"], sizes[purpose])
-            if tr[letter][2] != want:
-                ctx.fail("handshake-key-not-rfc", "key derived during a real handshake differs from RFC 4253 7.2",
-                         case=dict(case, side=nm, letter=letter, K=o["K"], H=o["H"], sid=o["sid"]),
-                         expected=want, observed=tr[letter][2])
+        if len(o["engines"]) != 2 * rounds:
+            ctx.fail("handshake-engines", "a side did not install both directions in every round", case=case)
+            return True
+        seen = {"enc": 0, "dec": 0}
         for e in o["engines"]:
             outb = e["op"] == "enc"
+            r = seen[e["op"]]
+            seen[e["op"]] += 1
+            tr = per_round[nm][min(r, rounds - 1)]
             if e["key"] != tr[rfc_letter(server, outb, "key")][2] or e["iv"] != tr[rfc_letter(server, outb, "iv")][2]:
                 ctx.fail("handshake-installed", "cipher engine keyed with a key other than the RFC one for its "
-                         "direction", case=dict(case, side=nm, op=e["op"]))
-    # client-out == server-in and vice versa, on the installed engine keys
-    ce = {e["op"]: e for e in c["engines"]}
-    se = {e["op"]: e for e in s["engines"]}
-    if set(ce) != {"enc", "dec"} or set(se) != {"enc", "dec"}:
-        ctx.fail("handshake-engines", "a side did not install both directions", case=case)
-        return True
-    for x, y in (("enc", "dec"), ("dec", "enc")):
-        if ce[x]["key"] != se[y]["key"] or ce[x]["iv"] != se[y]["iv"]:
-            ctx.fail("peer-mismatch", "client %s key/IV != server %s key/IV after a real handshake" % (x, y),
-                     case=case, expected=ce[x]["key"], observed=se[y]["key"])
-    if ce["enc"]["key"] == ce["dec"]["key"] or ce["enc"]["iv"] == ce["dec"]["iv"]:
-        ctx.fail("directions-share-key", "the two directions share a key or IV after a real handshake", case=case)
+                         "direction / round", case=dict(case, side=nm, op=e["op"], round=r))
+    # client-out == server-in and vice versa per round (the values both sides derived), directions distinct
+    for r in range(rounds):
+        ct, stt = per_round["client"][r], per_round["server"][r]
+        for letter in LETTERS:
+            if ct[letter][2] != stt[letter][2]:
+                ctx.fail("peer-mismatch", "the peers derive different keys for letter %s" % letter,
+                         case=dict(case, round=r), expected=ct[letter][2], observed=stt[letter][2])
+        if ct["A"][2] == ct["B"][2] or ct["C"][2] == ct["D"][2] or ct["E"][2] == ct["F"][2]:
+            ctx.fail("directions-share-key", "the two directions share a key or IV after a real key exchange",
+                     case=dict(case, round=r))
+    # what is actually in effect on the wire in every epoch: decode both directions with the RFC values
+    for nm, o, letters in (("client", c, "ACE"), ("server", s, "BDF")):
+        hs = [rfc_kdf(hashf, per_round[nm][r]["A"][3], per_round[nm][r]["A"][4], L.encode(), per_round[nm][r]["A"][5],
+                      sizes[p]) for r in range(rounds) for L, p in zip(letters, ("iv", "key", "mac"))]
+        epochs = [tuple(hs[3 * r:3 * r + 3]) for r in range(rounds)]
+        try:
+            counts, err = decode_wire(o["wire"], cipher, mac, epochs, o["strict"])
+        except Exception as e:   # noqa
+            counts, err = [], "decoder raised %r" % (e,)
+        if err is None and (len(counts) < rounds + 1 or any(n < 1 for n in counts[1:rounds + 1])):
+            err = "no packet seen in some key epoch: %r" % (counts,)
+        if err is not None:
+            ctx.fail("wire-keys-not-rfc",
+                     "packets on the wire do not decrypt / authenticate with the RFC 4253 7.2 IV, key and integrity "
+                     "key of their epoch",
+                     case=dict(case, sender=nm, K=[per_round[nm][r]["A"][3] for r in range(rounds)],
+                               H=[per_round[nm][r]["A"][4] for r in range(rounds)], sid=per_round[nm][0]["A"][5],
+                               wire=o["wire"][:6000]),
+                     expected="every packet of every epoch decodes", observed="%s (decoded per epoch: %r)" % (err, counts))
     return True
 
 
@@ -559,11 +780,17 @@ def run(ctx):
             t.K, t.H, t.session_id = K, H, H
             t.kex_engine = cls.__new__(cls)          # the real class, uninitialised: only hash_algo is read
             got = t._compute_key(letter, n)
-            declared = getattr(cls, "hash_algo", None) or hashlib.sha1
-            want = rfc_kdf(declared, K, H, letter.encode(), H, n)
+            specified = spec_kex_hash(kname)         # from the method's name (the RFCs), not from the class
             ctx.count(("kexhash", kname), kind="kex-class-hash")
+            if specified is None:
+                ctx.disagree("no specified hash known for kex method %s: extend spec_kex_hash / spec_kex_hashes"
+                             % kname)
+                specified = getattr(cls, "hash_algo", None) or hashlib.sha1
+            want = rfc_kdf(specified, K, H, letter.encode(), H, n)
             if got != want:
-                ctx.fail("kex-hash-selection", "_compute_key does not use the kex class's hash_algo (sha1 if none)",
+                ctx.fail("kex-hash-selection",
+                         "_compute_key, with the real kex class as kex_engine, does not derive keys with the hash the "
+                         "kex method specifies (class without hash_algo silently falls back to sha1?)",
                          case={"kex": kname, "K": K, "H": H, "letter": letter, "n": n}, expected=want, observed=got)
             seen = [d for d, hf in cand.items() if rfc_kdf(hf, K, H, letter.encode(), H, n) == got]
             kcases.append((i, [seen[0] if len(seen) == 1 else -1]))
@@ -654,16 +881,24 @@ def run(ctx):
     kexes = ["curve25519-sha256@libssh.org", "ecdh-sha2-nistp256", "ecdh-sha2-nistp384", "ecdh-sha2-nistp521",
              "diffie-hellman-group14-sha1", "diffie-hellman-group14-sha256", "diffie-hellman-group16-sha512"]
     kexes = [k for k in kexes if k in paramiko.Transport._kex_info]
+    gexes = [k for k in ("diffie-hellman-group-exchange-sha256", "diffie-hellman-group-exchange-sha1")
+             if k in paramiko.Transport._kex_info]
     plan = []
     for i, k in enumerate(kexes):
         plan.append((k, names_c[i % len(names_c)], names_m[i % len(names_m)]))
+    # group exchange (stub modulus pack) and every AEAD cipher are always in the plan (re-key included)
+    for i, k in enumerate(gexes):
+        plan.append((k, names_c[(3 + 4 * i) % len(names_c)], names_m[(3 + 2 * i) % len(names_m)]))
+    for cname in names_c:
+        if paramiko.Transport._cipher_info[cname].get("is_aead") and not any(p[1] == cname for p in plan):
+            plan.append((rng.choice(kexes[:4]), cname, rng.choice(names_m)))
     if ctx.thorough:
         for ci, cname in enumerate(names_c):
             for mi, mname in enumerate(names_m):
                 if (ci + mi) % 2 == 0:
                     plan.append((rng.choice(kexes[:6]), cname, mname))
     else:
-        for _ in range(5):
+        for _ in range(3):
             plan.append((rng.choice(kexes[:4]), rng.choice(names_c), rng.choice(names_m)))
     done = 0
     for kex, cname, mname in plan:
@@ -689,6 +924,26 @@ def replay(ctx, rep):
             ctx.count(("replay2", repr(case)))
             check_rfc(ctx, t, case["hash"], case["K"], unhex(case["H"]), unhex(case["sid"]),
                       case["letter"], case["n"], key=key)
+        finally:
+            t.sock.close()
+    elif "kex" in case and "cipher" in case and "mac" in case and "n" not in case:
+        ctx.count(("replay", case["kex"], case["cipher"], case["mac"]))
+        ctx.count(("replay2", case["kex"], case["cipher"], case["mac"]))
+        check_handshake(ctx, case["kex"], case["cipher"], case["mac"], case.get("rekey", True))
+    elif "kex" in case and "n" in case:
+        import paramiko
+        t = new_transport()
+        try:
+            cls = paramiko.Transport._kex_info[case["kex"]]
+            K, H = case["K"], unhex(case["H"])
+            t.K, t.H, t.session_id = K, H, H
+            t.kex_engine = cls.__new__(cls)
+            got = t._compute_key(case["letter"], case["n"])
+            ctx.count(("replay", repr(case)))
+            ctx.count(("replay2", repr(case)))
+            want = rfc_kdf(spec_kex_hash(case["kex"]), K, H, case["letter"].encode(), H, case["n"])
+            if got != want:
+                ctx.fail(key or "kex-hash-selection", rep.get("what", ""), case=case, expected=want, observed=got)
         finally:
             t.sock.close()
     elif "server_mode" in case and "direction" in case and "cipher" in case and "hash" in case:
